@@ -1,0 +1,102 @@
+//go:build verif
+
+// Verification contracts (comments only; compiled only with -tags verif).
+// Checked by /verif/bin/govc; see /verif/DESIGN.md.
+
+package standard
+
+//@ type Service
+//@   // established by New (parseAndCheckParameters rejects nil for these); blockAuctioneer and graffitiProvider are optional
+//@   valid self.chainTime != nil && self.proposalProvider != nil && self.validatingAccountsProvider != nil && self.proposalSubmitter != nil && self.randaoRevealSigner != nil && self.beaconBlockSigner != nil && self.blobSidecarSigner != nil
+//@   valid self.blockAuctioneer != nil ==> self.executionChainHeadProvider != nil
+//@
+//@ // ---- assumed contracts of go-eth2-client accessors (api/versionedproposal.go) ----
+//@ spec func propPresent(v *api.VersionedProposal) bool = (v.Version == spec.DataVersionPhase0 && v.Phase0 != nil) || (v.Version == spec.DataVersionAltair && v.Altair != nil) || (v.Version == spec.DataVersionBellatrix && (v.Blinded ? v.BellatrixBlinded != nil : v.Bellatrix != nil)) || (v.Version == spec.DataVersionCapella && (v.Blinded ? v.CapellaBlinded != nil : v.Capella != nil)) || (v.Version == spec.DataVersionDeneb && (v.Blinded ? v.DenebBlinded != nil : (v.Deneb != nil && v.Deneb.Block != nil)))
+//@ spec func slotOf(v *api.VersionedProposal) phase0.Slot
+//@ spec func parentRootOf(v *api.VersionedProposal) phase0.Root
+//@ spec func stateRootOf(v *api.VersionedProposal) phase0.Root
+//@ spec func bodyRootOf(v *api.VersionedProposal) phase0.Root
+//@ spec func blockSig() phase0.BLSSignature
+//@ spec func dutyErr() error
+//@
+//@ extern (*github.com/attestantio/go-eth2-client/api.VersionedProposal).Slot
+//@   requires v != nil
+//@   ensures result1 == nil ==> propPresent(v) && result0 == slotOf(v)
+//@ extern (*github.com/attestantio/go-eth2-client/api.VersionedProposal).ParentRoot
+//@   requires v != nil
+//@   ensures result1 == nil ==> propPresent(v) && result0 == parentRootOf(v)
+//@ extern (*github.com/attestantio/go-eth2-client/api.VersionedProposal).StateRoot
+//@   requires v != nil
+//@   ensures result1 == nil ==> propPresent(v) && result0 == stateRootOf(v)
+//@ extern (*github.com/attestantio/go-eth2-client/api.VersionedProposal).BodyRoot
+//@   requires v != nil
+//@   ensures result1 == nil ==> propPresent(v) && result0 == bodyRootOf(v)
+//@
+//@ // ---- C05 ----
+//@ func validateDuty
+//@   ensures result1 == nil <==> (duty != nil && !iszero(duty.randaoReveal) && duty.account != nil)
+//@   ensures duty != nil ==> result0 == duty.slot
+//@   modifies nothing
+//@
+//@ func (*Service).Prepare
+//@   // a RANDAO reveal is requested only for the duty's validator and slot
+//@   at call SignRANDAOReveal#1: assert arg1 == accounts[duty.validatorIndex] && arg2 == duty.slot
+//@   at call ValidatingAccountsForEpochByIndex#1: assert len(arg2) == 1 && arg2[0] == duty.validatorIndex
+//@   assumes call SignRANDAOReveal#1 (sig, err): sig == blockSig()
+//@   ensures result == nil ==> duty != nil && duty.randaoReveal == blockSig() && duty.slot == old(duty.slot) && duty.validatorIndex == old(duty.validatorIndex)
+//@   modifies duty.account, duty.randaoReveal
+//@
+//@ func (*Service).confirmProposalData
+//@   requires proposal != nil && duty != nil
+//@   ensures result == nil ==> propPresent(proposal) && slotOf(proposal) == duty.slot
+//@   modifies nothing
+//@
+//@ func (*Service).signProposalData
+//@   requires proposal != nil && duty != nil
+//@   // only a block whose slot is the duty's slot is ever signed
+//@   requires propPresent(proposal) && slotOf(proposal) == duty.slot
+//@   // ... by the duty's account, over that block's own parent, state and body roots
+//@   at call SignBeaconBlockProposal#1: assert arg1 == duty.account && arg2 == duty.slot && arg3 == duty.validatorIndex
+//@   at call SignBeaconBlockProposal#1: assert arg4 == parentRootOf(proposal) && arg5 == stateRootOf(proposal) && arg6 == bodyRootOf(proposal)
+//@   assumes call SignBeaconBlockProposal#1 (sig, err): sig == blockSig()
+//@   // the signed container holds exactly that block and that signature
+//@   ensures result1 == nil ==> result0 != nil && result0.Version == proposal.Version && result0.Blinded == proposal.Blinded
+//@   ensures result1 == nil && proposal.Version == spec.DataVersionPhase0 ==> result0.Phase0 != nil && result0.Phase0.Message == proposal.Phase0 && result0.Phase0.Signature == blockSig()
+//@   ensures result1 == nil && proposal.Version == spec.DataVersionAltair ==> result0.Altair != nil && result0.Altair.Message == proposal.Altair && result0.Altair.Signature == blockSig()
+//@   ensures result1 == nil && proposal.Version == spec.DataVersionBellatrix && proposal.Blinded ==> result0.BellatrixBlinded != nil && result0.BellatrixBlinded.Message == proposal.BellatrixBlinded && result0.BellatrixBlinded.Signature == blockSig()
+//@   ensures result1 == nil && proposal.Version == spec.DataVersionBellatrix && !proposal.Blinded ==> result0.Bellatrix != nil && result0.Bellatrix.Message == proposal.Bellatrix && result0.Bellatrix.Signature == blockSig()
+//@   ensures result1 == nil && proposal.Version == spec.DataVersionCapella && proposal.Blinded ==> result0.CapellaBlinded != nil && result0.CapellaBlinded.Message == proposal.CapellaBlinded && result0.CapellaBlinded.Signature == blockSig()
+//@   ensures result1 == nil && proposal.Version == spec.DataVersionCapella && !proposal.Blinded ==> result0.Capella != nil && result0.Capella.Message == proposal.Capella && result0.Capella.Signature == blockSig()
+//@   ensures result1 == nil && proposal.Version == spec.DataVersionDeneb && proposal.Blinded ==> result0.DenebBlinded != nil && result0.DenebBlinded.Message == proposal.DenebBlinded && result0.DenebBlinded.Signature == blockSig()
+//@   ensures result1 == nil && proposal.Version == spec.DataVersionDeneb && !proposal.Blinded ==> result0.Deneb != nil && result0.Deneb.SignedBlock != nil && result0.Deneb.SignedBlock.Message == proposal.Deneb.Block && result0.Deneb.SignedBlock.Signature == blockSig()
+//@   modifies nothing
+//@
+//@ func (*Service).unblindProposal
+//@   requires proposal != nil
+//@   requires forall k int :: 0 <= k && k < len(providers) ==> providers[k] != nil
+//@   // nil result: the proposal is no longer blinded and holds the full block a relay returned
+//@   ensures result == nil ==> !proposal.Blinded && proposal.Version == old(proposal.Version)
+//@   modifies proposal.Blinded, proposal.BellatrixBlinded, proposal.Bellatrix, proposal.CapellaBlinded, proposal.Capella, proposal.DenebBlinded, proposal.Deneb
+//@
+//@ func (*Service).unblindProposal$1
+//@   thread
+//@   requires proposal != nil && provider != nil
+//@   // the relay is sent precisely the signed blinded block
+//@   at call UnblindProposal: assert arg1 != nil && arg1.Proposal != nil && arg1.Proposal.Version == proposal.Version && arg1.Proposal.Bellatrix == proposal.BellatrixBlinded && arg1.Proposal.Capella == proposal.CapellaBlinded && arg1.Proposal.Deneb == proposal.DenebBlinded
+//@
+//@ func (*Service).proposeBlock
+//@   requires duty != nil
+//@   assumes call Proposal#1 (resp, err): err == nil ==> resp != nil && resp.Data != nil
+//@   assumes call AuctionBlock#1 (res, err): err == nil ==> res != nil
+//@   loop 1
+//@     invariant forall k int :: 0 <= k && k < len(providers) ==> providers[k] != nil
+//@   // exactly the signed block is submitted, and never a blinded one
+//@   at call SubmitProposal#1: assert arg1 == signedProposal && !signedProposal.Blinded
+//@   // a failed auction degrades to a locally built block: the proposal is still requested
+//@   ensures calls(Proposal) == 1
+//@   ensures result == nil ==> calls(SubmitProposal) == 1
+//@
+//@ func (*Service).Propose
+//@   assumes call validateDuty#1 (sl, err): err == dutyErr()
+//@   // failure to obtain graffiti does not skip the proposal
+//@   ensures dutyErr() == nil ==> calls(proposeBlock) == 1
